@@ -381,6 +381,21 @@ pub fn near_curve_points() -> &'static Vec<(String, BigUint, BigUint)> {
     })
 }
 
+/// Z of Q tied to Z of P for the relations 3..=8 (Q = P for odd, Q = -P for even relations): -Z (equal squares), w Z and w^2 Z with w a primitive
+/// cube root of unity (equal cubes; when the field has none, 2Z). The X / Y scalings of the two representations then agree in one coordinate only.
+pub fn tied_lambda(lp: &BigUint, relation: u8, p: &'static BigUint) -> BigUint {
+    let cube = || -> Option<BigUint> {
+        let s = Fp::new(p - 3u32, p).sqrt_any()?;
+        let half = mod_inv(&BigUint::from(2u32), p)?;
+        Some(((p - 1u32 + s.v) * half) % p)
+    };
+    match (relation - 3) / 2 {
+        0 => (p - lp % p) % p,
+        1 => match cube() { Some(w) => lp * w % p, None => lp * 2u32 % p },
+        _ => match cube() { Some(w) => lp * &w % p * &w % p, None => lp * 3u32 % p },
+    }
+}
+
 /// The reference point `q` as a library object in representation `kind`: 0 affine; 1 what the library computes itself ([k]G by g_mul, when
 /// k is known — otherwise affine); 2 Z = 2; 3 pseudo-random Z; 4 Z whose Montgomery limbs are the plain integer 1 (field element R^-1); 5 Z = p - 1.
 pub fn point_in_rep(q: &Pt<Fp>, k: Option<&BigUint>, kind: u8, seed: u64) -> Point {
